@@ -285,7 +285,7 @@ func (r *Run) Finish() int {
 		"seed":        r.Seed,
 		"level":       r.Level,
 		"coverage":    cov,
-		"assumptions": r.Assumptions,
+		"assumptions": append([]string{"the harness block store, deterministic key derivation and the reference model are trusted"}, r.Assumptions...),
 		"wall_s":      wall,
 		"violations":  r.Counters["violations_total"],
 	}
